@@ -466,7 +466,18 @@ func regionsDrive(args []string) error {
 		s := regGen(sid)
 		r := newRand(int64(sid) + 16500)
 		// the index gets its own copies of the lists; what is logged is what was passed
-		idx, panicked, _ := regNewIndex(regCpInts(s.starts), regCpInts(s.ends))
+		// the lists are handed over as windows of larger buffers in every other session: what lies behind len() (plausible
+		// coordinates) is not part of the lists
+		ps, pe := regCpInts(s.starts), regCpInts(s.ends)
+		if sid%2 == 0 {
+			ps = append(append(make([]int, 0, len(ps)+300), ps...), make([]int, 300)...)[:len(ps)]
+			pe = append(append(make([]int, 0, len(pe)+300), pe...), make([]int, 300)...)
+			for i := len(s.ends); i < len(pe); i++ {
+				pe[i] = 1000 + i
+			}
+			pe = pe[:len(s.ends)]
+		}
+		idx, panicked, _ := regNewIndex(ps, pe)
 		if sid%2 == 1 { // other indexes are built (and dropped) between building this one and asking it
 			other := regGen(sid + 1)
 			regNewIndex(regCpInts(other.starts), regCpInts(other.ends))
